@@ -282,7 +282,7 @@ def rkn_coq_case(L, pp, meta, before, expected):
 
 
 def rkn_oracle(L, pp, tab, meta, before, after):
-    """stage form of the theorems in Fractions on the real outputs; returns (failures, defects)"""
+    """stage form of the theorems in Fractions on the real outputs; returns the list of failures"""
     sw = L.sweep
     cls = type(sw)
     par = {k: [F(x) for x in pp[k]] for k in PAR_KEYS}
@@ -290,7 +290,7 @@ def rkn_oracle(L, pp, tab, meta, before, after):
     dt, t0 = L.params.dt, L.status.time
     c = list(sw.coll.nodes)
     QI, Qx = sw.QI, sw.Qx
-    fails, defects = [], []
+    fails = []
     xn, vn = after['p'], after['v']
     fn = [(after['fe'][m], after['fm'][m]) for m in range(M + 1)]
     fo = [(before['fe'][m], before['fm'][m]) for m in range(M + 1)]
@@ -311,10 +311,8 @@ def rkn_oracle(L, pp, tab, meta, before, after):
                 if vn[m][x] != v0[x] + dt * sum(QI[m, j] * acc[j][x] for j in range(1, m)):
                     fails.append(('stage_velocity', m, x))
             if m < M:
-                if fn[m] != p_eval(par, xn[m], vn[m], tn(m - 1)):
-                    fails.append(('stage_fields', m))
-                if fn[m] != p_eval(par, xn[m], vn[m], tn(m)):
-                    defects.append(('stage-time', m))
+                if fn[m] != p_eval(par, xn[m], vn[m], tn(m)):       # the stage is evaluated at its own node time
+                    fails.append(('stage_fields_own_time' if fn[m] == p_eval(par, xn[m], vn[m], tn(m - 1)) else 'stage_fields', m))
         if fn[M] != fo[M]:
             fails.append(('last_fields_touched',))
         if fn[0] != fo[0]:
@@ -368,7 +366,7 @@ def rkn_oracle(L, pp, tab, meta, before, after):
                         fails.append(('velocity_verlet_form',))
     if after['uend'] != (xn[M], vn[M]) or not after['uend_is_last']:
         fails.append(('uend_not_last_node',))
-    return fails, defects
+    return fails
 
 
 def get_full_f_check(ck):
@@ -402,11 +400,10 @@ def get_full_f_check(ck):
                      match={'kind': 'rkn-get_full_f'})
 
 
-def rkn_part(ck, rng, thorough, report_defects=True):
+def rkn_part(ck, rng, thorough):
     n = 480 if thorough else 72
     plan = ['RKN', 'Velocity_Verlet', 'seeded-explicit', 'seeded-implicit', 'seeded-explicit', 'RKN']
     cases, metas = [], []
-    defect_seen = None
     for i in range(n):
         which = plan[i % len(plan)]
         try:
@@ -424,20 +421,15 @@ def rkn_part(ck, rng, thorough, report_defects=True):
             continue
         key = ('RKN', meta['cls'] if which in ('RKN', 'Velocity_Verlet') else which, meta['M'], meta['dim'], meta['implicit'], meta['gsa'], meta['inject'], meta['zero_kE'])
         ck.case(key=key, nontrivial=True, sample=meta)
-        fails, defects = rkn_oracle(L, pp, tab, meta, before, after)
+        fails = rkn_oracle(L, pp, tab, meta, before, after)
         replay = {'meta': meta, 'problem': {k: [str(v) for v in pp[k]] for k in PAR_KEYS}, 'nodes': [str(v) for v in L.sweep.coll.nodes],
                   'QI': [[str(v) for v in r] for r in L.sweep.QI.tolist()], 'Qx': [[str(v) for v in r] for r in L.sweep.Qx.tolist()],
                   'before': {k: [[str(v) for v in r] for r in before[k]] for k in before}}
         if fails:
             ck.violation('%s: RungeKuttaNystrom.update_nodes / compute_end_point violates its stage form (%s)' % (meta['cls'], fails[0][0]),
                          dict(replay, failures=fails[:10]), match={'kind': 'rkn-' + fails[0][0], 'class': which})
-        if defects and defect_seen is None:
-            defect_seen = dict(replay, failures=defects[:5])
         cases.append(rkn_coq_case(L, pp, meta, before, expected))
         metas.append((meta, bool(fails), replay))
-    if defect_seen is not None and report_defects:
-        ck.violation('RungeKuttaNystrom.update_nodes stores the fields of stage m at time t0 + dt*nodes[m-1] (the previous stage\'s node), not at the '
-                     'stage\'s own time t0 + dt*nodes[m] (Coq: rkn_stage_time_refuted)', defect_seen, match={'kind': 'rkn-stage-time'})
     res = eval_cases(ck, 'RKNCases', 'Model.Sweep Model.SweepExec Model.SweepRKN Model.SweepRKNExec', 'rkncase', 'check_rkn_case', cases)
     if res is not None:
         nb = 0
@@ -725,9 +717,9 @@ def ms_part(ck, rng, thorough):
 
 # ========================================================================================= entry points
 
-def run_part(ck, rng, thorough, report_defects=True):
+def run_part(ck, rng, thorough):
     logging.disable(logging.CRITICAL)
-    rkn_part(ck, rng, thorough, report_defects=report_defects)
+    rkn_part(ck, rng, thorough)
     ms_part(ck, rng, thorough)
 
 
@@ -740,11 +732,10 @@ def main():
     ap = argparse.ArgumentParser()
     ap.add_argument('--tier', default='quick', choices=['quick', 'thorough'])
     ap.add_argument('--seed', type=int, default=0)
-    ap.add_argument('--no-defects', action='store_true', help='do not report the known defect candidates of the pinned tree')
     a = ap.parse_args()
     ck = Check('C02', a.tier, a.seed)
     t0 = time.time()
-    run_part(ck, ck.rng, a.tier == 'thorough', report_defects=not a.no_defects)
+    run_part(ck, ck.rng, a.tier == 'thorough')
     for o in ck.obligations:
         print('obligation %-100s %s %s' % (o['name'][:100], 'ok' if o['ok'] else 'FAILED', '' if o['ok'] else o['detail'][:300]))
     for v in ck.violations:
